@@ -112,7 +112,7 @@ def h2(ctx):
             if x.kind == 'EXT' and x.d['name'] == 'warnings.warn':
                 # find the innermost enclosing If in the AST that tests fix
                 pass
-    for n in ast.walk(f.node):
+    for n in [m for g in _with_helpers(ctx, f) for m in ast.walk(g.node)]:
         if isinstance(n, ast.If) and any(isinstance(m, ast.Name) and m.id == 'fix' for m in ast.walk(n.test)):
             for m in ast.walk(n):
                 if isinstance(m, ast.Call) and (dotted(m.func) or '').endswith('warnings.warn'):
@@ -127,10 +127,13 @@ def h2(ctx):
 def h3(ctx):
     f = ctx.method('Cache', 'check')
     obs = []
-    # find the os.walk loop whose body removes directories
+    # find the os.walk loop whose body removes directories (in check() or a private helper it calls)
     walk_for = None
     rm_for = None
-    for n in ast.walk(f.node):
+    nodes = []
+    for g in _with_helpers(ctx, f):
+        nodes.extend(ast.walk(g.node))
+    for n in nodes:
         if isinstance(n, ast.For) and isinstance(n.iter, ast.Call) and \
                 ctx.prog.resolve_name('core', dotted(n.iter.func) or '') == 'os.walk':
             body_calls = [ctx.prog.resolve_name('core', dotted(m.func) or '') for m in ast.walk(n)
@@ -154,9 +157,33 @@ def h3(ctx):
                   'empty directories are pruned by a top-down os.walk using the listing taken before any removal: a '
                   'directory that becomes empty because its only child was just removed is left behind, so a second '
                   'check(fix=True) still reports "empty directory"', f.loc(walk_for)))
-    obs.append(Ob('H3', 'Cache.check/files-before-dirs', rm_for is not None and rm_for.lineno < walk_for.lineno,
+    # order on paths: no unknown-file removal after the first directory removal
+    ordered, seen_both = True, False
+    for p in ctx.paths(f, 'default')[:600]:
+        rmd = [e.seq for e in p.trace if e.kind == 'EXT' and e.d['name'] in ('os.rmdir', 'os.removedirs')]
+        rmf = [e.seq for e in p.trace if e.kind == 'EXT' and e.d['name'] in ('os.remove', 'os.unlink')]
+        if rmd and rmf:
+            seen_both = True
+            if max(rmf) > min(rmd):
+                ordered = False
+    obs.append(Ob('H3', 'Cache.check/files-before-dirs', rm_for is not None and seen_both and ordered,
                   'unknown files must be removed before empty directories are looked for', f.loc(walk_for)))
     return obs
+
+
+def _with_helpers(ctx, f):
+    """f and the private methods of its class it calls (transitively)."""
+    out, work = [f], [f]
+    cls = ctx.prog.classes.get(f.cls) if f.cls else None
+    while work and cls is not None:
+        g = work.pop()
+        for n in ast.walk(g.node):
+            if isinstance(n, ast.Call) and (dotted(n.func) or '').startswith('self._'):
+                h = ctx.prog.lookup(f.cls, dotted(n.func)[5:])
+                if h is not None and h not in out and not h.is_property and not h.is_contextmanager:
+                    out.append(h)
+                    work.append(h)
+    return out
 
 
 def _uses_removedirs(ctx, node):
@@ -219,9 +246,8 @@ def h4(ctx):
                 if not good:
                     same_ctor = False
                     wit2 = wit2 or fmt_trace(p.trace)
-    src = ast.unparse(f.node)
     if any(isinstance(n, ast.Subscript) and isinstance(n.slice, ast.Slice) and 'dirpath' in ast.unparse(n.value)
-           for n in ast.walk(f.node)):
+           for g in _with_helpers(ctx, f) for n in ast.walk(g.node)):
         same_ctor = False
     obs.append(Ob('H4', 'Cache.check/scans-on-every-path', always and npaths > 0,
                   'the two directory scans (unknown files, empty directories) are skipped on some path, e.g. when no '
